@@ -869,14 +869,26 @@ impl Mem {
                 j.kind = if store { "store" } else { "load" };
                 j.desc = format!("{}::<{}>({}, {:?})", j.kind, ATOMIC_NAMES[ti], addr, order);
                 let ok = fits && aligned;
+                // through Bytes::store / load, or through an atomic reference obtained directly
+                let direct = ATOMIC_SIZES[ti] == 4 && cx().a(3) == 0 && !(store && conts[ci].track.is_some());
                 let got = with_allowed(rid, &[(abs(addr), abs(addr) + if ok { sz } else { 0 })], || {
-                    with_atomic_type!(ti, T => {
-                        if store {
-                            flat(catch(|| view.store::<T>(mk::<T>(&bytes), addr, order)), obs_unit)
-                        } else {
-                            flat(catch(|| view.load::<T>(addr, order)), |r| match r { Ok(v) => Obs::Bytes(bytes_of(&v)), Err(e) => obs_err(&e) })
-                        }
-                    })
+                    if direct {
+                        use std::sync::atomic::AtomicU32;
+                        let v32 = u32::from_ne_bytes([bytes[0], bytes[1], bytes[2], bytes[3]]);
+                        flat(catch(|| view.get_atomic_ref::<AtomicU32>(addr).map(|r| if store { r.store(v32, order); None } else { Some(r.load(order)) })), |r| match r {
+                            Ok(None) => Obs::Unit,
+                            Ok(Some(v)) => Obs::Bytes(v.to_ne_bytes().to_vec()),
+                            Err(e) => obs_err(&e),
+                        })
+                    } else {
+                        with_atomic_type!(ti, T => {
+                            if store {
+                                flat(catch(|| view.store::<T>(mk::<T>(&bytes), addr, order)), obs_unit)
+                            } else {
+                                flat(catch(|| view.load::<T>(addr, order)), |r| match r { Ok(v) => Obs::Bytes(bytes_of(&v)), Err(e) => obs_err(&e) })
+                            }
+                        })
+                    }
                 });
                 let exp = if !fits { Obs::Oob } else if !aligned { Obs::Misaligned } else if store { Obs::Unit } else { Obs::Bytes(conts[ci].model[voff + addr..voff + addr + sz].to_vec()) };
                 if ok && store {
